@@ -40,6 +40,7 @@ type script struct {
 	self byte // '-', 'a', 'n' (settles inside the handler); 'A', 'N': a helper goroutine started by the handler settles, racing the Router's own Ack/Nack
 	// error kinds: 'e' errors.New, 'c' context.Canceled, 'd' context.DeadlineExceeded, 'w' fmt.Errorf("%w") around
 	// DeadlineExceeded, 'x' pkg/errors.Wrap around Canceled, 'u' custom error type, 'j' errors.Join(plain, DeadlineExceeded)
+	// 'q'/'Q': like 'r', but every output carries a context that is already cancelled / past its deadline
 	kind   byte   // 'r' returns (nil slice when k = 0), 'z' returns an empty NON-NIL slice, 'e' plain error, 'c' context.Canceled, 'p' panics
 	k      int    // number of outputs (r/e/c)
 	pv     byte   // panic value: 'v' string, 'e' errors.New, 'n' nil, 'i' int, 's' struct value, 'b' []byte, 'c' custom error type, 'g' fmt.Stringer
@@ -70,7 +71,7 @@ func parseScript(s string) (script, error) {
 		if len(f[1]) != 2 || !strings.ContainsRune("venisbcg", rune(sc.pv)) {
 			return sc, fmt.Errorf("bad panic in %q", s)
 		}
-	case 'r', 'e', 'c', 'z', 'd', 'w', 'x', 'u', 'j':
+	case 'r', 'e', 'c', 'z', 'd', 'w', 'x', 'u', 'j', 'q', 'Q':
 		sc.kind = f[1][0]
 		k, err := strconv.Atoi(f[1][1:])
 		if err != nil || k < 0 || k > 1000 {
@@ -97,7 +98,7 @@ func parseScript(s string) (script, error) {
 }
 
 type config struct {
-	kind  string // pub pubdeco dis disdeco nil
+	kind  string // pub pubdeco dis disdeco nil nildeco
 	topic string
 	mws   string // "" or word over p,o,r (router level) and P,O,R (handler level)
 	// nb: "" or a second handler on the same router that never gets a message: first letter E (registered with the
@@ -140,7 +141,7 @@ func parseConfig(s string) (config, error) {
 		c.mws = f[2]
 	}
 	switch c.kind {
-	case "pub", "pubdeco", "dis", "disdeco", "nil":
+	case "pub", "pubdeco", "dis", "disdeco", "nil", "nildeco":
 	default:
 		return c, fmt.Errorf("bad kind %q", c.kind)
 	}
@@ -326,7 +327,18 @@ func (s *scenario) handler(msg *message.Message) ([]*message.Message, error) {
 		outs = []*message.Message{} // … unless it asks for an empty but non-nil slice
 	}
 	for i := 0; i < st.sc.k; i++ {
-		outs = append(outs, s.newOut(st, i))
+		o := s.newOut(st, i)
+		switch st.sc.kind {
+		case 'q': // the handler worked under a context it cancels when it is done (ctx, cancel := …; defer cancel())
+			ctx, cancel := context.WithCancel(context.Background())
+			cancel()
+			o.SetContext(ctx)
+		case 'Q': // … or under a deadline that has passed by the time it returns
+			ctx, cancel := context.WithDeadline(context.Background(), time.Unix(1, 0))
+			defer cancel()
+			o.SetContext(ctx)
+		}
+		outs = append(outs, o)
 	}
 	switch st.sc.kind {
 	case 'e':
@@ -716,7 +728,11 @@ func runScenarioLate(out emitter, cfg config, scripts []script, rng *wh.Rng, yie
 			r.AddPublisherDecorators(func(p message.Publisher) (message.Publisher, error) { return passPub{p}, nil })
 		}
 		hd = r.AddHandler("h", "in", sub, cfg.topic, &recPub{s: s, inner: &scriptPub{s}}, s.handler)
-	case "nil":
+	case "nil", "nildeco":
+		if cfg.kind == "nildeco" {
+			// a publisher decorator is configured, but this handler has no publisher: nothing to decorate, still no publisher
+			r.AddPublisherDecorators(func(p message.Publisher) (message.Publisher, error) { return passPub{p}, nil })
+		}
 		hd = r.AddHandler("h", "in", sub, cfg.topic, nil, s.handler)
 	case "dis", "disdeco":
 		if cfg.kind == "disdeco" {
@@ -1035,9 +1051,9 @@ func lates(out emitter, rng *wh.Rng, yield bool) {
 
 // neighbours: a second handler on the same router (empty or ordinary name, own handler-level middlewares, own publisher
 // instance of the same Go type) must not influence how handler "h" handles and settles its messages.
-func neighbours(out emitter, rng *wh.Rng, yield bool) {
+func neighbours(out emitter, rng *wh.Rng, yield bool, kinds []string) {
 	for rep := 0; rep < 3; rep++ { // RunHandlers starts the handlers in map order: repeat, both orders must be right
-		for _, kind := range []string{"pub", "pubdeco", "nil", "dis", "disdeco"} {
+		for _, kind := range kinds {
 			for _, nb := range []string{"E", "Es", "Ex", "Eo", "Esx", "N", "Ns", "Nx", "No"} {
 				for _, mws := range []string{"", "oP"} {
 					for _, w := range []string{"-.r0.ok", "-.r2.ok", "-.r2.err", "-.e2.ok", "-.e0.ok", "n.r1.ok", "-.pv.ok", "-.r3.rej1"} {
@@ -1051,6 +1067,9 @@ func neighbours(out emitter, rng *wh.Rng, yield bool) {
 						k := kind
 						if k == "pubdeco" {
 							k = "pub"
+						}
+						if k == "nildeco" {
+							k = "nil"
 						}
 						scs := []script{scriptFor(k, w)}
 						begin(out, reqOf(cfg, scs))
@@ -1158,7 +1177,7 @@ func resultsFor(kind string) []string {
 		// a NoPublishHandlerFunc cannot return messages; outputs come from output-adding middleware only
 		return []string{"r0", "e0", "c0", "d0", "w0", "x0", "u0", "j0", "pv", "pe", "pn", "pi", "ps", "pb", "pc", "pg"}
 	}
-	return []string{"r0", "z0", "r1", "r3", "e0", "e1", "e3", "c0", "c2", "d0", "w1", "x0", "u2", "j0", "pv", "pe", "pn", "pi", "ps", "pb", "pc", "pg"}
+	return []string{"r0", "z0", "r1", "r3", "q1", "Q2", "e0", "e1", "e3", "c0", "c2", "d0", "w1", "x0", "u2", "j0", "pv", "pe", "pn", "pi", "ps", "pb", "pc", "pg"}
 }
 
 func pubsFor(kind, res string) []string {
@@ -1251,11 +1270,11 @@ func randomScript(rng *wh.Rng, kind string) script {
 		case 2:
 			res = rng.Pick("r0", "z0")
 		default:
-			res = "r" + wh.Itoa(1+rng.Intn(5))
+			res = rng.Pick("r", "r", "r", "q", "Q") + wh.Itoa(1+rng.Intn(5))
 		}
 	}
 	pb := "ok"
-	if kind == "pub" {
+	if kind == "pub" || kind == "pubdeco" {
 		pb = rng.Pick("ok", "ok", "ok", "err", "panic", "rej"+wh.Itoa(rng.Intn(5)), "rej"+wh.Itoa(100+rng.Intn(2)))
 	}
 	return mustScript(self + "." + res + "." + pb)
@@ -1263,9 +1282,9 @@ func randomScript(rng *wh.Rng, kind string) script {
 
 func batches(out emitter, rng *wh.Rng, count_ int, yield bool) {
 	for b := 0; b < count_; b++ {
-		kind := rng.Pick("pub", "pub", "pub", "nil", "dis", "disdeco")
+		kind := rng.Pick("pub", "pub", "pub", "pubdeco", "nil", "dis", "disdeco")
 		cfg := config{kind: kind, mws: mwPrefixes[rng.Intn(len(mwPrefixes))]}
-		if kind == "pub" || kind == "nil" {
+		if kind != "dis" && kind != "disdeco" {
 			cfg.topic = topics[rng.Intn(len(topics))]
 		}
 		n := 2 + rng.Intn(63)
@@ -1494,7 +1513,7 @@ func main() {
 	// pass 1: no hook installed, no yields
 	matrix(out, rng, false)
 	lates(out, rng, false)
-	neighbours(out, rng, false)
+	neighbours(out, rng, false, []string{"pub", "pubdeco", "nil", "dis", "disdeco"})
 	sizes := []int{99, 100, 101, 150, 200, 250}
 	if a.Thorough() {
 		sizes = []int{50, 99, 100, 101, 102, 150, 199, 200, 201, 250, 300, 512, 999, 1000}
@@ -1518,6 +1537,9 @@ func main() {
 		matrix(out, rng, true)
 	}
 	batches(out, rng, nb-nb/2, true)
+	// last, because a Router that wraps a nil publisher into a decorator dies when the handler's loop ends (that kills this
+	// process, see parent()): a nil publisher with a publisher decorator configured must stay a handler without publisher
+	neighbours(out, rng, true, []string{"nildeco"})
 	if giveUp() {
 		out.Note("stopped generating after repeated expired waits (each is reported in the cases above)")
 	}
